@@ -567,12 +567,13 @@ func init() {
 		section{"keys", tiered(28, 700), c17Keys},
 		section{"generated-many", tiered(20, 300), c17GeneratedMany},
 		section{"validity", tiered(100, 4000), c17Validity},
+		concurrentSection("C17"),
 	)
 	core.Register(&core.Monitor{
 		ID: "C17", Level: "exploration", Plan: plan, Run: run, CaseTimeout: 300e9,
 		Rule: "key tags and DS: DNSKEY RDATA of any flags/protocol/algorithm (not 1) and key length 0..600 incl. constructed double-carry sums, digest types {1,2,4} and unsupported {0,3,6,7,255}, owner case variants; NSEC3: names x salts 0..255 octets x iterations (boundary-first, <=2 above 1000 per case), case variants, raw 8-bit names; " +
 			"Match/Cover over all pairs of 5 in-zone hashes (normal, wrapping, empty intervals; positions below/equal-owner/inside/equal-next/above), lower-case hashes, out-of-zone names incl. look-alikes; key export/import for every algorithm/size (RSA 1024..4096 incl. the 512-octet modulus limit and a size that is no multiple of 64) with library and independent verification; " +
-			"ValidityPeriod over (inception, expiration, t) triples within 68 years of each other incl. boundaries, the epoch itself and times beyond 2^32; oracle = closed forms from RFC 4034 App. B / s.5.1.4, RFC 5155 s.5, RFC 1982; non-trivial = distinct input",
+			"ValidityPeriod over (inception, expiration, t) triples within 68 years of each other incl. boundaries, the epoch itself and times beyond 2^32; oracle = closed forms from RFC 4034 App. B / s.5.1.4, RFC 5155 s.5, RFC 1982; the same operations called from 8 goroutines at once give the results they give alone; non-trivial = distinct input",
 		Assumptions: []string{"digest type 5 (the library's non-standard SHA-512 extension) is not exercised", "RSA/MD5 (algorithm 1) excluded as in the statement"},
 		MinObserved: []string{"keytags", "keytags_with_second_carry", "ds_digests", "hashes", "cover_checks", "out_of_zone_checks", "key_roundtrip_signatures", "validity_checks"},
 	})
